@@ -254,7 +254,7 @@ def mlPre (cfg : Config) (m : MatcherI) (σ : Script) (slice_ : Bytes) : Core ×
     else (st, .ok ())
 
 theorem multiLine_eq (cfg : Config) (m : MatcherI) (σ : Script) (slice_ : Bytes) :
-    multiLine cfg m σ slice_ = finishRun σ (mlPre cfg m σ slice_) := by
+    multiLine cfg m σ slice_ = finishRun cfg σ (mlPre cfg m σ slice_) := by
   unfold multiLine mlPre finishRun mlFlush mlTrailing
   dsimp only
   rcases begin σ (Core.new cfg true) with ⟨st, b | _⟩
